@@ -16,6 +16,8 @@ CONSTANTS Addrs, Tokens,        \* client addresses; sequence of token ids in th
           DevNoExpiry,              \* deviation: hasValidSession ignores the expiry
           DevLogoutKeeps,           \* deviation: logout clears the cookie but keeps the server-side session
           DevLimiterPerWindowStart, \* deviation: fixed window counted from its first hit, reset as a whole
+          PollOnlyStale,            \* TRUE restricts Poll to cookies whose session entry is present but expired (used by one deviation search)
+          DevSessionPollRevives,    \* deviation: GET /auth/session is a sliding keep-alive: a token merely PRESENT in the map gets expiry = now + ttl
           DevAnyCookieValid,        \* deviation: hasValidSession accepts if ANY same-named session cookie is live, logout still drops the first only
           PairJars                  \* TRUE: requests/logouts carrying two different issued tokens are offered too
 VARIABLES enabled, now, ticks, sessions, ntok, hits,   \* implementation state
@@ -89,6 +91,20 @@ Request(jar) ==
   /\ sessions' = IF enabled /\ c \in TokenSet /\ sessions[c] >= 0 /\ ~TokValid(c) THEN [sessions EXCEPT ![c] = -1] ELSE sessions  \* expired entry is dropped
   /\ UNCHANGED <<enabled, now, ticks, ntok, hits, issuedAt, loggedOut, loggedOutJars, admitted>>
 
+\* GET /ui/api/auth/session (unprotected; the UI polls it): handleSession reports hasValidSession, which also drops an
+\* expired entry.  It must not change what protected endpoints answer later.
+Poll(jar) ==
+  LET c == Eff(jar)
+      present == enabled /\ c \in TokenSet /\ sessions[c] >= 0 IN
+  /\ PollOnlyStale => (present /\ ~TokValid(c))
+  /\ Step([a |-> "Poll", cookies |-> jar])
+  /\ IF DevSessionPollRevives
+     THEN /\ last' = [op |-> "Poll", authenticated |-> present]
+          /\ sessions' = IF present THEN [sessions EXCEPT ![c] = now + TTL] ELSE sessions
+     ELSE /\ last' = [op |-> "Poll", authenticated |-> Valid(jar)]
+          /\ sessions' = IF present /\ ~TokValid(c) THEN [sessions EXCEPT ![c] = -1] ELSE sessions
+  /\ UNCHANGED <<enabled, now, ticks, ntok, hits, issuedAt, loggedOut, loggedOutJars, admitted>>
+
 Tick(d) ==
   /\ ticks[d] < TickBudget[d]
   /\ Step([a |-> "Tick", d |-> d])
@@ -98,7 +114,7 @@ Tick(d) ==
 
 Next == \/ \E a \in Addrs : \E good \in BOOLEAN : Login(a, good, 1)
         \/ \E a \in Addrs : \E n \in Bursts : Login(a, FALSE, n)
-        \/ \E jar \in Jars : Logout(jar) \/ Request(jar)
+        \/ \E jar \in Jars : Logout(jar) \/ Request(jar) \/ Poll(jar)
         \/ \E d \in DOMAIN TickBudget : Tick(d)
 Spec == Init /\ [][Next]_vars
 
